@@ -30,6 +30,7 @@ type vrParams struct {
 	Seed    uint64                `json:"seed"`
 	Tests   []map[string][]uint8  `json:"tests"` // per test: file -> line states
 	Dup     int                   `json:"dup"`   // index of the result that is delivered twice (-1 none)
+	Labels  []int                 `json:"labels"` // test target each result belongs to (several runs of one target share a label)
 	Orders  int                   `json:"orders"`
 	Choices []int                 `json:"choices"`
 }
@@ -70,6 +71,11 @@ func genVR(seed uint64) vrParams {
 	}
 	if r.Intn(2) == 0 {
 		p.Dup = r.Intn(k)
+	}
+	// several results may be runs of the same test target (num_runs > 1, flaky retries)
+	m := 1 + r.Intn(k)
+	for i := 0; i < k; i++ {
+		p.Labels = append(p.Labels, r.Intn(m))
 	}
 	p.Orders = 6
 	return p
@@ -143,14 +149,20 @@ func scenarioVR(t *testing.T, seed uint64, replay *vrParams) vrResult {
 				var tasks []verifsim.TaskSpec
 				deliver := func(i int, tag string) verifsim.TaskSpec {
 					return verifsim.TaskSpec{ID: fmt.Sprintf("t%d%s", i, tag), Fn: func() {
-						target := NewBuildTarget(ParseBuildLabel(fmt.Sprintf("//pkg:test%d", i), ""))
+						lab := i
+						if i < len(p.Labels) {
+							lab = p.Labels[i]
+						}
+						target := NewBuildTarget(ParseBuildLabel(fmt.Sprintf("//pkg:test%d", lab), ""))
 						cov := NewTestCoverage()
+						cov.Tests[target.Label] = map[string][]LineCoverage{}
 						for f, lines := range p.Tests[i] {
 							lc := make([]LineCoverage, len(lines))
 							for j, l := range lines {
 								lc[j] = LineCoverage(l)
 							}
 							cov.Files[f] = lc
+							cov.Tests[target.Label][f] = lc
 						}
 						verifsim.Yield("finish")
 						order = append(order, fmt.Sprintf("%d%s", i, tag))
